@@ -1,4 +1,5 @@
 import Knut.Generated.TransCommands
+import Knut.Generated.TransFlags
 import Knut.FactsAgree.TransMapping
 import Knut.FactsAgree.TransQuery
 import Knut.FactsAgree.TransAmountsSum
@@ -432,6 +433,25 @@ theorem balance_query_day (cfg : BalCfg) (cur : String → Bool) (valuation : co
           st'.c.filterMap entryOf = st.c.filterMap entryOf ++ txs.flatMap (Balance.queryTx cfg) := by
   obtain ⟨q, hq, hinit, hpost⟩ := query_posting_model cfg cur valuation span iv remapFs swap m getPath accs comFs hfl hsorted hstop hreg hswap
   exact ⟨q, hq, hinit, fun st hst dg txs hrel hwf => query_day_model hpost st hst dg txs hrel hwf⟩
+
+/-! ### the partition: `r.Multiperiod.Partition(j.Period())` -/
+
+/-- the `Multiperiod` flags of the model's `BalanceFlags`: `--from` (absent = the zero time), `--to`, `--last`; the interval flags
+are read through `IntervalFlags.Value()`, which is not translated (a loop over an array of flags): its result is the parameter -/
+def multiperiodGo (f : BalanceFlags) : flags.Multiperiod :=
+  { period := { start := f.from?.getD 0, end_ := f.to }, last := f.last, interval := { def_ := 0 } }
+
+/-- **`Multiperiod.Partition`** = the partition of `BalanceCmd.entries`: `NewPartition` of the flag period clipped to the journal's
+period (`BalanceCmd.window`), the interval and `--last`; the zero-time panic of `NewPartition` included -/
+theorem Partition_agrees (f : BalanceFlags) (b : Knut.Builder) :
+    flags.Multiperiod.Partition (multiperiodGo f) (TransDate.periodGo ⟨b.min, b.max⟩) (TransDate.ivGo f.interval) =
+      TransDate.outcomeGo TransDate.partitionGo (newPartition (BalanceCmd.window f b) f.interval f.last) := by
+  unfold flags.Multiperiod.Partition BalanceCmd.window
+  have hp : flags.PeriodFlag.Value (multiperiodGo f).period = TransDate.periodGo ⟨f.from?.getD 0, f.to⟩ := rfl
+  rw [hp, TransDate.Clip_agrees, TransDate.NewPartition_agrees]
+  have hl : (multiperiodGo f).last = f.last := rfl
+  rw [hl]
+  cases newPartition _ f.interval f.last <;> rfl
 
 /-! ### the rest of `execute`, pinned by source text
 
